@@ -38,7 +38,7 @@ def _replay_task(args):
         if r['check'] not in checks:
             out['error'] = f'unknown check {r["check"]}'
             return out
-        ok, msg, rctx = fw.replay_case(prop, checks[r['check']], r['case'], findings)
+        ok, msg, rctx = fw.replay_case(prop, checks[r['check']], r['case'], findings, shard=int(r.get('shard') or 0))
         out.update(ok=ok, msg=msg, known=dict(rctx.ev.known))
     except BaseException as e:  # noqa: BLE001
         import traceback
@@ -123,7 +123,7 @@ def main(argv):
         if r['property'] != prop:
             print(f'replay file is for {r["property"]}, not {prop}')
             return 2
-        ok, msg, _ = fw.replay_case(prop, checks[r['check']], r['case'], findings)
+        ok, msg, _ = fw.replay_case(prop, checks[r['check']], r['case'], findings, shard=int(r.get('shard') or 0))
         if ok:
             print(f'replay {argv[3]}: property holds on this case ({msg})')
             return 0
